@@ -851,6 +851,14 @@ class NumberedFamily(C13Family):
         r1 = run_mid('numbered/mid', spec, samples, None, (stu, {}, [ans]), numbered=['n'],
                      extra_sets=extra_sets, open_names=open_names, classify_extra=set(extra_sets) | set(open_names),
                      user_constants={'k': 7}, base_sets={'n': NSET}, repeat=repeat)
+        if r1.violation is None and case[3] == 0:
+            # a user constant literally named like the numbered HEAD: the head is not a variable (only n_{i} are), so the
+            # constant n belongs to every sample
+            r0 = run_mid('numbered/mid/constant-named-like-head', spec, samples, None, (stu, {}, [ans]), numbered=['n'],
+                         extra_sets=extra_sets, open_names=open_names, classify_extra=set(extra_sets) | set(open_names),
+                         user_constants={'k': 7, 'n': 5}, base_sets={'n': NSET}, repeat=repeat)
+            if r0.violation is not None:
+                r1 = r0
         # ---- G: what the recording functions see
         log = []
         fa, fs = Recorder(3, log, 'A'), Recorder(3, log, 'S')
